@@ -121,6 +121,18 @@ PROPS["C01"] = {
     "technique": "Kani harness on mechanically extracted slices against a recording transcript (contract: equal absorption sequences); bounded",
     "design_ref": "DESIGN.md section 9.4 (fix 15) and 9.2",
 }
+PROPS["C18"] = {
+    "units": {"kani": ["c16_zkir_arity", "c16_zkir_into_bytes"], "polyvc": ["c16_zkir_routing"]},
+    "scope": "the 'rejected with an error value rather than a panic' clause only, for the parts of IR loading and compilation that are within reach: arity validation (and that it is what both parsers index by), the length arithmetic of IntoBytes, the zero-modulus guard of ModExp",
+    "not_decided": ["agreement of off-circuit evaluation and the compiled circuit (the core of the property): every operation has separate off-circuit and in-circuit code that emits constraints through the standard library; no contract language for emitted constraints is within reach",
+                    "JSON / binary round trips (serde, bincode)", "type checking of operands, name resolution, IR compile panics that need whole-program reasoning (Jubjub constants without the jubjub chip, IntoBytes allocation from an unchecked length)"],
+    "trusted_base": [],
+    "assumptions": [],
+    "claim": "Thin, one clause only: ill-formed programs are rejected with an error instead of panicking, for the checks within reach. Every program decoder returns Ok only when each instruction passes check_arity; the arity table admits only input counts that cover every index the off-circuit and in-circuit parsers use and output counts equal to the number of values they produce; Arity::check is the documented predicate (full usize domain); IntoBytes(n) evaluates its length checks without panicking for every n (off-circuit Native branch, in-circuit BigUint tail); off-circuit ModExp guards the zero modulus. The agreement between off-circuit evaluation and the compiled circuit -- the core of C18 -- is NOT decided.",
+    "level_note": "Same units as the IR part of C16 (obligations tagged with both properties): PolyVC routing / table obligations, Kani slices. Trusted: the extraction scanner, PolyVC, Kani+CBMC; callee contracts of bincode / serde_json / check_arity atoms assumed.",
+    "technique": "PolyVC Result-routing and table-consistency obligations + Kani contracts on sub-expression slices (contract-based deductive verification)",
+    "design_ref": "DESIGN.md section 9.4 (fixes 12-14) and 9.2",
+}
 PENDING = {}
 for _p in ():
     PENDING[_p] = "planned in DESIGN.md section 5 but the check is not built yet in this revision; not claimed until it is"
@@ -135,6 +147,5 @@ NOT_APPLICABLE = {
     "C14": "completeness/soundness are algebraic + cryptographic; the one data-structure contract (construct_intermediate_sets) sits on generic HashMap/BTreeSet iterator code neither Verus nor Kani can take.",
     "C15": "probabilistic batching soundness; the totality clause is only decidable by executing batch_verify on an empty batch, i.e. a test, not a contract.",
     "C17": "quantifies over thread schedules (Kani has no threads; Verus needs its own permission types) and over write/read pairs of generic FFI-backed key types.",
-    "C18": "agreement of two interpreters, one of which emits constraints (C04's obstacle); the off-circuit half runs on BigUint, strings and blst.",
     "C20": "in-circuit verifier and IPA: the obstacles of C02 and C04 combined.",
 }
